@@ -43,6 +43,11 @@ def build_pdf(objects, root, info=None, form="table", tape=None, pack=None, trai
             fw.add_object(i, enc(i, gens.get(i, 0), objects[i]), gen=gens.get(i, 0))
         ent = {i: fw.offsets[i] for i in objects}
         ent[0] = (None, 65535)
+        if container_hook is not None:
+            import copy
+
+            trailer = copy.deepcopy(trailer)
+            container_hook("trailer", trailer)
         fw.xref_table(ent, trailer)
     else:
         pack = [i for i in (pack or []) if not isinstance(objects[i], Stream) and not gens.get(i)]
